@@ -36,7 +36,7 @@ def plan(tier):
 def floors(tier):
     f = {"nontrivial": 60, "held:main": 80, "held:catalogue": 25, "counter:gradient_checks": 250, "counter:gradientIV_checks": 100,
          "counter:jac_checks": 100, "counter:fd_crosschecks": 100, "class:obs-permuted": 15, "class:target_param": 20,
-         "class:target_param-permuted": 8, "class:target_state": 30, "class:weights": 25, "class:weights-1d-single-state": 4,
+         "class:target_param-permuted": 8, "class:target_state": 30, "class:weights": 25, "class:weights-zero-mask": 6, "class:weights-1d-single-state": 4,
          "class:single-state": 3}
     for k in RL.KINDS:
         f["class:" + k] = 8
@@ -82,7 +82,9 @@ def run_case(rng, idx, tier, lane, ctx):
         cls.append("target_state")
     if c.weight_arg is not None:
         cls.append("weights")
-        if c.y.shape[1] == 1 and getattr(c, "weight_form", "") == "per-observation":
+        if "mask" in getattr(c, "weight_form", ""):
+            cls.append("weights-zero-mask")
+        if c.y.shape[1] == 1 and getattr(c, "weight_form", "") in ("per-observation", "per-observation-mask"):
             cls.append("weights-1d-single-state")
     sample = LC.describe(c)
 
